@@ -1555,7 +1555,13 @@ impl Zeroconf {
             self.probing_handler();
 
             // check IP changes if next_ip_check is reached.
-            if now >= next_ip_check && next_ip_check > 0 {
+            if self.ip_check_interval == 0 {
+                next_ip_check = 0; // the IP check is disabled.
+            } else if next_ip_check == 0 {
+                // the IP check was (re-)enabled at run time: arm it.
+                next_ip_check = now + self.ip_check_interval;
+                self.add_timer(next_ip_check);
+            } else if now >= next_ip_check {
                 next_ip_check = now + self.ip_check_interval;
                 self.add_timer(next_ip_check);
 
